@@ -182,13 +182,11 @@ func H19q0() {
 	vCover("empty-message")
 	vAssert(ret == nil && handled, "H19q0.dispatched: a supported message kind did not reach its handler")
 	switch kind {
-	case 3, 5, 7, 8:
-		// answers to nothing we asked / empty range / no reference: rejected
+	case 3, 5, 6, 7, 8:
+		// answers to nothing we asked / empty range / no reference (a payload query whose reference field is not
+		// 32 bytes is malformed since F-38; it used to be answered with an empty payload): rejected
 		vCover("empty-rejected")
 		vAssert(herr != nil && len(e.conn.sent) == 0, "H19q0.empty_rejected: an all-default answer or query was not rejected")
-	case 6:
-		// query for the zero reference: unknown transaction, empty answer
-		vAssert(len(e.conn.sent) == 1 && e.conn.sent[0].GetTransactionPayload() != nil && len(e.conn.sent[0].GetTransactionPayload().Data) == 0, "H19q0.empty_payload_query: payload query without reference not answered with the empty payload")
 	case 9:
 		vAssert(len(e.conn.sent) == 0, "H19q0.diagnostics_silent: diagnostics answered")
 	case 2:
@@ -611,7 +609,9 @@ func H19qg() {
 	vAssert(ret == nil && handled, "H19qg.dispatched: TransactionPayload did not reach its handler")
 	vAssert(len(e.conn.sent) == 0, "H19qg.no_answer: a received payload was answered with a message")
 	vAssert(len(e.st.adds) == 0 && len(e.st.writes) <= 1, "H19qg.at_most_one_write: more than one payload written, or a transaction added")
-	denotes := hash.FromSlice(msg.TransactionRef) == tx.ref && !tx.ref.Empty()
+	// a reference denotes a transaction only if it is a reference: exactly 32 bytes (F-38: shorter and longer fields
+	// used to be padded / truncated onto a stored transaction)
+	denotes := len(msg.TransactionRef) == hash.SHA256HashSize && hash.FromSlice(msg.TransactionRef) == tx.ref && !tx.ref.Empty()
 	if herr != nil {
 		vCover("rejected")
 		vAssert(len(e.st.writes) == 0 && len(e.jobs.finished) == 0, "H19qg.rejected_leaves_state: payload rejected but stored state changed")
